@@ -212,11 +212,12 @@ def seg_meets_box(a, b, x0, x1, y0, y1):
     return t0 <= t1
 
 
-def seg_cells_floor(a, b):
-    """cells (floor x, floor y) of all points of the closed segment [a, b] (Fractions): the cells, half-open
-    [i,i+1)x[j,j+1) as `math.floor` assigns points to them, that contain a point of the segment. The cell of
-    a moving point only changes where a coordinate is an integer: sample those parameters and the midpoints
-    between consecutive ones."""
+def seg_cells_floor(a, b, cs=None, ls=None):
+    """cells of all points of the closed segment [a, b] (Fractions, fractional cell indices). Cells are half-open
+    [i,i+1)x[j,j+1) as `math.floor` assigns points to them; when the grid size (cs, ls) is given the last column / row
+    is closed on the upper border of the extent (a point with x = cs belongs to column cs - 1) and only the points of the
+    segment inside the extent on the upper side (x <= cs, y <= ls) count. The cell of a moving point only changes where
+    a coordinate is an integer: sample those parameters and the midpoints between consecutive ones."""
     (ax, ay), (bx, by) = a, b
     ts = {F(0), F(1)}
     for p0, p1 in ((ax, bx), (ay, by)):
@@ -225,14 +226,24 @@ def seg_cells_floor(a, b):
                 ts.add((k - p0) / (p1 - p0))
     ts = sorted(ts)
     ts += [(u + v) / 2 for u, v in zip(ts, ts[1:])]
-    return {(math.floor(ax + t * (bx - ax)), math.floor(ay + t * (by - ay))) for t in ts}
+    cells = set()
+    for t in ts:
+        x, y = ax + t * (bx - ax), ay + t * (by - ay)
+        i, j = math.floor(x), math.floor(y)
+        if cs is not None:
+            if x > cs or y > ls:
+                continue
+            i, j = min(i, cs - 1), min(j, ls - 1)
+        cells.add((i, j))
+    return cells
 
 
-def seg_cells_mode(a, b, exact):
+def seg_cells_mode(a, b, exact, cs=None, ls=None):
     if exact:
-        return seg_cells_floor(a, b)
+        return seg_cells_floor(a, b, cs, ls)
     cells = seg_cells(a, b)
-    return {(i, j) for (i, j) in cells if seg_meets_box(a, b, i + EPS, i + 1 - EPS, j + EPS, j + 1 - EPS)}
+    return {(i, j) for (i, j) in cells if seg_meets_box(a, b, i + EPS, i + 1 - EPS, j + EPS, j + 1 - EPS)
+            and (cs is None or (i <= cs - 1 and j <= ls - 1))}
 
 
 def d2_point_seg(q, a, b):
@@ -272,30 +283,30 @@ class P(Prop):
     M = "TracklibVerif.Props.C08"
     theorems = [
         (M, "TV.C08.straddle_necessary", "two closed segments sharing a point pass isSegmentIntersects (val1 <= 0 and val2 <= 0), touching ends and zero-length segments included"),
-        (M, "TV.C08.cells_complete", "a point P of segment [c1,c2] with i <= Px < i+1, j <= Py < j+1 implies (i,j) in __cellsCrossSegment(c1,c2)"),
-        (M, "TV.C08.index_complete", "after SpatialIndex(collection,res,margin>=0) returned, every point of every segment of feature k is inside the extent and the cell containing it lists k"),
-        (M, "TV.C08.point_query_complete", "request(q), q inside the extent, does not raise and returns every feature having a segment point in the cell containing q"),
+        (M, "TV.C08.cells_complete", "a point P of segment [c1,c2] in cell (i,j) — i <= Px < i+1, or i = csize-1 and i <= Px <= csize (last column closed on the upper border), same for j — implies (i,j) in __cellsCrossSegment(c1,c2), segments lying on the upper border included"),
+        (M, "TV.C08.constructor_returns", "SpatialIndex(collection,res,margin) does not raise for a non-empty collection, margin >= 0 (0 included: vertices on the upper border), default or positive cell size, any bounding box (flat, single point, shorter than a cell)"),
+        (M, "TV.C08.extent_point_cell", "on a built index every point of the closed extent has a cell (min(floor idx, csize-1), min(floor idy, lsize-1)) inside the grid whose closed square contains it; only the last column/row is closed on the upper side"),
+        (M, "TV.C08.index_complete", "after SpatialIndex(collection,res,margin>=0), every point of every segment of feature k is inside the extent and the cell containing it lists k (upper-border vertices included)"),
+        (M, "TV.C08.point_query_complete", "request(q) for EVERY q of the closed extent does not raise and returns every feature having a segment point in the cell containing q"),
         (M, "TV.C08.segment_query_complete", "a returned request([Q1,Q2]) contains every feature listed in the cell of any point of the query segment"),
-        (M, "TV.C08.segment_query_returns", "request([Q1,Q2]) does not raise when both ends are inside the extent and strictly below its upper borders"),
+        (M, "TV.C08.segment_query_returns", "request([Q1,Q2]) does not raise when both ends are inside the closed extent (upper border included)"),
         (M, "TV.C08.track_query_complete", "a returned request(track) contains every feature listed in the cell of any point of any segment of the query track"),
-        (M, "TV.C08.units_sound", "with positive cell sides groundDistanceToUnits(d) returns floor(d/min(dX,dY)+1) and points at most d apart on each axis fall in cells whose column/row indices differ by at most that many units"),
+        (M, "TV.C08.track_query_returns", "request(track) does not raise when every vertex of the query track is inside the closed extent"),
+        (M, "TV.C08.units_sound", "with positive cell sides groundDistanceToUnits(d) returns floor(d/min(dX,dY)+1) and points at most d apart on each axis fall in cells whose column/row indices (floors, and the clamped cell indices) differ by at most that many units"),
         (M, "TV.C08.neighboringCells_square", "__neighboringcells(i,j,u) is exactly the Chebyshev square of radius u around (i,j) clipped to the grid"),
-        (M, "TV.C08.neighborhood_complete", "groundDistanceToUnits(d) and neighborhood(q, unit=groundDistanceToUnits(d)), q inside the extent, d >= 0, do not raise and every feature with a point within Euclidean distance d of q is returned"),
-        (M, "TV.C08.vertex_on_upper_border_raises", "formal side of finding D10: if the constructor returns, no point of a feature segment has x = xmax (y = ymax) on an axis of positive length (so with margin 0 a right-/top-most vertex of a 2+-point track makes it raise, unless all vertices share that abscissa / ordinate)"),
-        (M, "TV.C08.point_query_on_upper_border_raises", "formal side of finding query-on-upper-border: request(q) with q.x = xmax > xmin or q.y = ymax > ymin raises IndexError on every built index"),
+        (M, "TV.C08.neighborhood_complete", "groundDistanceToUnits(d) and neighborhood(q, unit=groundDistanceToUnits(d)), EVERY q of the closed extent, d >= 0, do not raise and every feature with a point within Euclidean distance d of q is returned"),
         (M, "TV.C08.grid_always_builds", "the repairs 9a44198 and degenerate-extent: default or positive explicit cell size, ANY bounding box (thin, flat, a single point, shorter than the cell size): __init__ reaches the registration loop without raising, with >= 1 column and >= 1 row, positive cell sides, cells tiling every axis of positive length exactly and one column / row on an axis of zero length"),
         (M, "TV.C08.flat_axis_single_column", "on a built index whose extent has zero length along an axis (a straight north-south or east-west track) that axis has one column / row and every point of the extent has index 0 on it"),
         (M, "TV.C08.isFloor_ratFloor", "Rat.floor, the driver's math.floor, satisfies the floor contract assumed by the theorems"),
     ]
     partial = []
     open_statements = [
-        "theorems are over an ordered field with an exact floor: IEEE rounding in (x-xmin)/dX and in the straddle products is outside them (sampled by the flt stream with a 1e-7-cell guard)",
-        "segment_query_complete / track_query_complete are conditional on the request returning (a query touching the upper border of the extent raises IndexError: finding query-on-upper-border)",
-        "index_complete and the theorems built on it speak about constructor calls that return: with margin 0 a vertex on the upper border of an axis of positive length makes the registration loop raise (finding vertex-on-upper-border); thin, flat and single-point extents and cells larger than the extent are ordinary (theorems grid_always_builds, flat_axis_single_column)",
+        "theorems are over an ordered field with an exact floor: IEEE rounding in (x-xmin)/dX and in the straddle products is outside them (sampled by the flt stream with a 1e-7-cell guard); in particular a vertex exactly on the upper border whose computed index exceeds csize by an ulp is clamped into the last column, but a segment lying wholly on that border is then tested at abscissa csize(1+ulp), outside the closed last cell",
         "the unit = -1 incremental searches of neighborhood and the given-unit segment/track neighbourhoods are modelled and compared with the implementation, no theorem is stated about them (the property does not mention them)",
+        "later addFeature calls (after construction) with vertices outside the extent are modelled and compared (the `continue` that keeps a stale coord1), no theorem is stated about them",
     ]
     modelled = ("SpatialIndex.__init__ (extent from bbox + margin, explicit and default resolution, one column / row and a non-zero cell side on a degenerate axis), __getCell, "
-                "__cellsCrossSegment, __addSegment, addFeature, request (cell/point/segment/track), __neighboringcells, "
+                "__cellsCrossSegment (index box clamped to the last column / row), __addSegment, addFeature, request (cell/point/segment/track; the point form with the clamped cell), __neighboringcells, "
                 "neighborhood (cell/point/segment/track; unit >= 0 and the incremental unit = -1 search), "
                 "groundDistanceToUnits, __addCellValuesInTAB of core/spatial_index.py; cartesienne, __eval, "
                 "isSegmentIntersects of util/geometry.py; TrackCollection/Network bbox as min/max of the vertices")
@@ -303,12 +314,13 @@ class P(Prop):
                "the theorems show the model omits nothing, so any superset omits nothing), equality on extent, cell size, units, None-ness and exceptions",
                "mode flt: the Float instantiation of the model reproduces Python's doubles operation by operation; "
                "rounding is outside the theorems, the flt-mode oracle keeps a guard of 1e-7 cell around cell borders"]
-    rule = ("exhaustive: every segment between points of a half-integer lattice through __cellsCrossSegment, every 2-vertex track of a "
-            "small lattice (axis-parallel ones included: flat extents) indexed and queried at every lattice point of the extent; random: 1-3 features (tracks or network edges) of 2-4 "
+    rule = ("exhaustive: every segment between points of a half-integer lattice through __cellsCrossSegment (coordinates beyond the 4 x 4 grid included: the clamp), every 2-vertex track of a "
+            "small lattice (axis-parallel ones included: flat extents) indexed with margin 1/2 and margin 0 and queried at every lattice point of the CLOSED extent (upper border included); "
+            "random: 1-3 features (tracks or network edges) of 2-4 "
             "vertices on a half-integer lattice, square / non-square / default resolutions (the latter with aspect ratios from 1 to 400, i.e. down to one row or column; explicit cells up to larger than the extent), "
-            "about 7 % degenerate extents (all vertices on one vertical or horizontal line, or at one point), margins 1/2, 1/20, 1/4, 0, lattice queries "
+            "about 7 % degenerate extents (all vertices on one vertical or horizontal line, or at one point), margins 1/2, 1/20, 1/4, 0 (17 %), lattice queries of the closed extent, 10-35 % of them on its upper border "
             "(points, segments, tracks, cells, neighbourhoods in units and from ground distances 0..grid size), later addFeature calls; "
-            "plus a float stream with random coordinates. non-trivial = the index is built (or its construction is the finding) and at "
+            "plus a float stream with random coordinates (margin 0 included, a quarter of the query points are feature vertices). non-trivial = the index is built and at "
             "least one feature segment and one query are present")
 
     # ------------------------------------------------------------------ setup
@@ -597,7 +609,7 @@ class P(Prop):
         expected = {}
         for k, f in feats:
             for a, b in segments(f):
-                for (i, j) in seg_cells_mode(g(a), g(b), exact):
+                for (i, j) in seg_cells_mode(g(a), g(b), exact, cs, ls):
                     if 0 <= i < cs and 0 <= j < ls:
                         expected.setdefault((i, j), set()).add(k)
         for (i, j), s in sorted(expected.items()):
@@ -622,11 +634,12 @@ class P(Prop):
                 if not inside(q[1:3]):
                     continue
                 c = g(q[1:3])
-                if near_border(c[0]) or near_border(c[1]):
-                    continue
                 if isr:
                     return ("query-raised", n, "request(point %s) raised %s for a point inside the extent" % (q[1:3], r["err"]))
-                i, j = math.floor(c[0]), math.floor(c[1])
+                if near_border(c[0]) or near_border(c[1]):
+                    continue
+                # the cell containing the point: the last column / row owns the upper border of the extent
+                i, j = min(math.floor(c[0]), cs - 1), min(math.floor(c[1]), ls - 1)
                 miss = expected.get((i, j), set()) - set(r)
                 if miss:
                     return ("omission", n, "request(point %s) omits feature %d which has a segment through the cell (%d,%d) containing the point" % (q[1:3], min(miss), i, j))
@@ -638,7 +651,7 @@ class P(Prop):
                     return ("query-raised", n, "request(%s %s) raised %s for a query inside the extent" % (k, pts, r["err"]))
                 want = set()
                 for a, b in segments(pts):
-                    for cell in seg_cells_mode(g(a), g(b), exact):
+                    for cell in seg_cells_mode(g(a), g(b), exact, cs, ls):
                         want |= grid.get(cell, set()) | expected.get(cell, set())
                 miss = want - set(r)
                 if miss:
@@ -666,46 +679,22 @@ class P(Prop):
                 if isr:
                     return ("query-raised", n, "__cellsCrossSegment(%s) raised %s" % (q[1:], r["err"]))
                 got = {(c[0], c[1]) for c in r}
-                miss = seg_cells_mode(a, b, exact) - got
+                miss = seg_cells_mode(a, b, exact, cs, ls) - got
                 if miss:
                     return ("omission", n, "__cellsCrossSegment(%s): the segment meets cell %s, which is not returned" % (q[1:], sorted(miss)[0]))
         return None
 
     # ------------------------------------------------------------------ known-finding classes
     def classify(self, case, impl_out, msg):
-        """classes of the listed findings, each a decidable predicate on the case and the first failure:
-        vertex-on-upper-border: margin 0 and construction raises IndexError (a vertex with x = xmax or y = ymax of the
-            extent gets column/row index csize/lsize)
-        query-on-upper-border: a point/segment/track request having a point with x = xmax or y = ymax raises IndexError"""
-        if not isinstance(impl_out, dict):
-            return None
-        f = self.first_failure(case, impl_out)
-        if f is None:
-            return None
-        tag, n, _ = f
-        tw = exact_twin(case)
-        if tag == "construction":
-            if impl_out["err"] == "err:index" and tw not in (None, "zerodiv") and fr(case["margin"]) == 0:
-                xmax, ymax = tw[1], tw[3]
-                pts = [p for f in case["feats"] for p in f]
-                if any(fr(p[0]) == xmax or fr(p[1]) == ymax for p in pts):
-                    return "vertex-on-upper-border"
-            return None
-        if tag == "query-raised" and n is not None:
-            q, r = case["queries"][n], impl_out["q"][n]
-            if isinstance(r, dict) and r.get("err") == "err:index" and q[0] in ("pt", "seg", "trk"):
-                xmax, ymax = F(impl_out["info"][1]), F(impl_out["info"][3])
-                val = fr if exact_case(case) else (lambda v: F(fl(v)))
-                pts = [q[1:3]] if q[0] == "pt" else [q[1:3], q[3:5]] if q[0] == "seg" else q[1]
-                if any(val(p[0]) == xmax or val(p[1]) == ymax for p in pts):
-                    return "query-on-upper-border"
+        """no finding of C08 is left open: the classes vertex-on-upper-border, query-on-upper-border and
+        default-resolution-flat-extent were removed with their repairs (a failure of one of those kinds is a violation)"""
         return None
 
     # ------------------------------------------------------------------ generators
     def exhaustive_scopes(self, tier):
         n = 7 if tier == "quick" else 9
-        return ["__cellsCrossSegment on every ordered pair of points of the half-integer lattice {0,1/2,..,%s}^2 (%d segments), exact oracle" % ((n - 1) / 2, n ** 4),
-                "every 2-vertex track between points of {0,1/2,..,%s}^2 with non-degenerate bbox, margin 1/2, cell sizes (1/2|1|2)x(1/2|1|2) where exact, point query at every half-integer point of the extent"
+        return ["__cellsCrossSegment on every ordered pair of points of the half-integer lattice {0,1/2,..,%s}^2 (%d segments) of a grid of that many cells per side (upper border included), exact oracle" % ((n - 1) / 2, n ** 4),
+                "every 2-vertex track between two different points of {0,1/2,..,%s}^2 (flat bounding boxes included), margin 1/2 and margin 0, cell sizes (1/2|1|2)x(1/2|1|2) where exact, point query at every half-integer point of the closed extent (upper border included)"
                 % (2 if tier == "quick" else 3)]
 
     def lattice_queries(self, tw, rng, feats, tier, step=F(1, 2), full=False):
@@ -717,15 +706,18 @@ class P(Prop):
         Pin = lambda: [float(xmin + step * rng.randrange(0, max(1, nx))), float(ymin + step * rng.randrange(0, max(1, ny)))]
         qs = []
         if full:
-            border = 1 if rng.random() < 0.03 else 0
-            for a in range(max(1, nx) + border):          # a flat axis (nx = 0) has the one abscissa xmin = xmax
-                for b in range(max(1, ny) + border):
+            # every lattice point of the closed extent, its upper border included (a flat axis has nx = 0: the one
+            # abscissa xmin = xmax)
+            for a in range(nx + 1):
+                for b in range(ny + 1):
                     qs.append(["pt", float(xmin + step * a), float(ymin + step * b)])
             return qs
         size = float(max(xmax - xmin, ymax - ymin))
         dists = [0, 0.5, 1, 1.5, 2, 2.5, 3, 4, 5, 6.5, 7.5, 10, 12.5, 13]
+        Pin_, bq = Pin, (0.35 if rng.random() < 0.5 else 0.1)
+        Pin = lambda: P() if rng.random() < bq else Pin_()       # points of the closed extent: the upper border too
         for _ in range(rng.randrange(4, 9)):
-            p = Pin() if rng.random() < 0.9 else P()
+            p = Pin()
             r = rng.random()
             if r < 0.25:
                 qs.append(["pt"] + p)
@@ -763,7 +755,7 @@ class P(Prop):
     def lattice_case(self, rng, tier):
         """1-3 features of 2-4 vertices on a half-integer lattice, a configuration on which floats are exact"""
         for _ in range(40):
-            margin = rng.choice(["1/2"] * 10 + ["1/20"] * 8 + ["1/4"] * 3 + ["0"])
+            margin = rng.choice(["1/2"] * 9 + ["1/20"] * 7 + ["1/4"] * 3 + ["0"] * 4)
             r = rng.random()
             default = r < 0.08
             thin = default and rng.random() < 0.5
@@ -851,7 +843,7 @@ class P(Prop):
         rnd = lambda: round(rng.uniform(0, scale), rng.choice([1, 2, 3]))
         nf = rng.randrange(1, 4)
         feats = [[[rnd(), rnd()] for _ in range(rng.randrange(2, 5))] for _ in range(nf)]
-        margin = rng.choice(["1/20", "1/20", "1/2", "1/10", "0.3"])
+        margin = rng.choice(["1/20", "1/20", "1/2", "1/10", "0.3", "0"])
         degen = rng.random()
         if degen < 0.06:
             # all vertices on one vertical / horizontal line, or (rarely) at one point
@@ -894,6 +886,10 @@ class P(Prop):
         P = lambda: [xmin if xmin == xmax else round(rng.uniform(xmin, xmax), 3), ymin if ymin == ymax else round(rng.uniform(ymin, ymax), 3)]
         size = max(xmax - xmin, ymax - ymin)
         qs = []
+        P_ = P
+        verts = [p for f in feats for p in f]
+        # a quarter of the query points are vertices (with margin 0 the right-most / top-most ones are on the upper border)
+        P = lambda: list(rng.choice(verts)) if rng.random() < 0.25 else P_()
         for _ in range(rng.randrange(3, 8)):
             r = rng.random()
             if r < 0.3:
@@ -913,7 +909,8 @@ class P(Prop):
         case["queries"] = qs
         return case
 
-    BASE = {"kind": "cross", "net": False, "feats": [[[0.0, 0.0], [2.0, 2.0]]], "res": [1, 1], "margin": "1/2", "late": []}
+    BASE = {"kind": "cross", "net": False, "feats": [[[0.0, 0.0], [2.0, 2.0]]], "res": [1, 1], "margin": "1/2", "late": []}      # 4 x 4 cells
+    BASE3 = {"kind": "cross", "net": False, "feats": [[[0.0, 0.0], [2.0, 2.0]]], "res": [1, 1], "margin": "1/4", "late": []}     # 3 x 3 cells
 
     def cases(self, rng, tier):
         out = []
@@ -921,8 +918,11 @@ class P(Prop):
         n = 7 if tier == "quick" else 9
         pts = [[a / 2, b / 2] for a in range(n) for b in range(n)]
         allseg = [["cross"] + p + q for p in pts for q in pts]
+        # (quick: lattice {0..3}^2 on the 3 x 3 grid, thorough: {0..4}^2 on the 4 x 4 grid: the whole closed grid, so
+        # that segments ending on, crossing to and lying on the upper border go through the clamped index box)
+        base = self.BASE3 if tier == "quick" else self.BASE
         for k in range(0, len(allseg), 60):
-            out.append(dict(self.BASE, queries=allseg[k:k + 60]))
+            out.append(dict(base, queries=allseg[k:k + 60]))
         # shifted/negative and long segments
         for _ in range(30 if tier == "quick" else 300):
             qs = []
@@ -938,8 +938,8 @@ class P(Prop):
         sizes = [(1, 1), (0.5, 1), (2, 0.5)] if tier == "quick" else [(1, 1), (0.5, 0.5), (0.5, 1), (2, 0.5), (1, 2), (2, 2)]
         for ia, a in enumerate(lp):
             for b in lp[ia + 1:]:
-                for res in sizes:
-                    case = {"kind": "track2", "net": False, "feats": [[a, b]], "res": list(res), "margin": "1/2", "late": [], "queries": []}
+                for res, margin in [(r_, "1/2") for r_ in sizes] + [(r_, "0") for r_ in sizes[:2]]:
+                    case = {"kind": "track2", "net": False, "feats": [[a, b]], "res": list(res), "margin": margin, "late": [], "queries": []}
                     tw = exact_twin(case)
                     if tw in (None, "zerodiv") or not self.precondition(case):
                         continue
@@ -947,7 +947,8 @@ class P(Prop):
                     if exact_case(case):
                         out.append(case)
         # --- regression / finding witnesses
-        out.append({"kind": "witness", "net": False, "feats": [[[0.0, 0.0], [1.0, 1.0]]], "res": [1, 1], "margin": "0", "late": [], "queries": [["pt", 0.5, 0.5]]})
+        out.append({"kind": "witness", "net": False, "feats": [[[0.0, 0.0], [1.0, 1.0]]], "res": [1, 1], "margin": "0", "late": [], "queries": [["pt", 0.5, 0.5], ["pt", 1.0, 1.0]]})
+        out.append({"kind": "witness", "net": False, "feats": [[[0.0, 0.0], [2.0, 2.0]]], "res": [1, 1], "margin": "1/2", "late": [], "queries": [["pt", 3.0, 1.0], ["seg", 3.0, -1.0, 3.0, 3.0], ["nd", 3.0, 3.0, 1.5]]})
         out.append({"kind": "witness", "net": False, "feats": [[[0.0, 0.0], [1000.0, 5.0]]], "res": None, "margin": "1/20", "late": [], "queries": [["pt", 500.0, 2.5]]})
         out.append({"kind": "witness", "net": False, "feats": [[[0.0, 0.0], [10.0, 0.0]]], "res": None, "margin": "1/20", "late": [], "queries": [["pt", 5.0, 0.0], ["nd", 2.0, 0.0, 1.0]]})
         out.append({"kind": "witness", "net": False, "feats": [[[0.0, 0.0], [10.0, 0.0]]], "res": [2, 2], "margin": "1/20", "late": [], "queries": [["pt", 5.0, 0.0], ["seg", 1.0, 0.0, 9.0, 0.0]]})
